@@ -117,10 +117,11 @@ for line in open(os.path.join(V, "DESIGN.md"), errors="replace"):
     cells = [c.strip() for c in line.split("|")]
     if len(cells) >= 5 and re.fullmatch(r"C\d\d[a-z]", cells[1] or "") and cells[1] not in T:
         T[cells[1]] = (cells[2].replace("`", ""), cells[3].replace("`", ""))
-r6 = os.path.join(V, "tools", "seed_round6.json")
-if os.path.exists(r6):
-    for k, v in json.load(open(r6)).items():
-        T[k] = tuple(v)
+for rj in ("seed_round6.json", "seed_round7.json"):
+    r6 = os.path.join(V, "tools", rj)
+    if os.path.exists(r6):
+        for k, v in json.load(open(r6)).items():
+            T[k] = tuple(v)
 mx = {}
 mp = os.path.join(V, "seeded", "matrix.json")
 if os.path.exists(mp):
